@@ -11,6 +11,7 @@ CONSTANTS
   MaxArr = 2
   MaxT = 1
   REPS = {1}
+  Garbage = FALSE
   Staged = FALSE
   PsFree = FALSE
   InitSets = {{"p1"}}
